@@ -18,6 +18,7 @@ KEY_RLE = "C02-legacy-v07-stream-refuses-rle-block"
 KEY_EMPTY = "C02-legacy-v07-stream-empty-raw-block-ends-frame"
 KEY_STALE = "C02-dstream-stale-prefix-pointer-selects-ddict"
 KEY_LEGACY_SHORT = "C02-dstream-legacy-short-first-call"
+KEY_V05RING = "C02-legacy-v05-stream-ring-too-small"
 
 
 # ------------------------------------------------------------------------------------------------ 1. legacy frames
@@ -26,11 +27,58 @@ def _lblk(t, data, size=None):
     return bytes([(t << 6) | (n >> 16), (n >> 8) & 255, n & 255]) + data
 
 
+_V05_OFFPREFIX = [1, 1, 2, 4, 8, 16, 32, 64, 128, 256, 512, 1024, 2048, 4096, 8192, 16384, 32768, 65536, 131072, 262144, 524288]
+
+
+def v05_cblock(lits, ll, ml, off):
+    """a v0.5 COMPRESSED block written by hand: raw literals (<= 31 bytes), one sequence (ll literals, match of ml bytes at distance off),
+    the three symbol tables in RAW mode (the code itself on 6 / 5 / 7 bits), then the remaining literals"""
+    assert len(lits) < 32 and ll <= len(lits) and ll < 63 and 4 <= ml < 4 + 127 and off >= 1
+    code = max(c for c in range(1, len(_V05_OFFPREFIX)) if _V05_OFFPREFIX[c] <= off)
+    bw = E.BitW()
+    bw.add(0, 18)                                  # what the state updates after the only sequence read
+    bw.add(off - _V05_OFFPREFIX[code], code - 1)
+    bw.add(ml - 4, 7)
+    bw.add(code, 5)
+    bw.add(ll, 6)
+    return bytes([0x80 | len(lits)]) + lits + bytes([1, 0, 0]) + bw.close()
+
+
 def legacy_v05(rng, blocks, wl):
+    """blocks: [(kind, bytes)] kind raw | cblk (bytes = the block as written; its content is in the third field)"""
     out = struct.pack("<I", 0xFD2FB525) + bytes([wl - 11])
     for b in blocks:
-        out += _lblk(1, b[1])
+        out += _lblk(0, b[1]) if b[0] == "cblk" else _lblk(1, b[1])
     return out + bytes([0xC0, 0, 0])
+
+
+def v05_with_matches(rng, wl):
+    """-> (blocks, content): raw blocks of many sizes followed / interleaved with hand-made compressed blocks whose match reaches
+    anywhere into the window (in particular over earlier small blocks: the streaming decoder must still have them)"""
+    window = 1 << wl
+    blocks, content = [], bytearray()
+    for _ in range(rng.choice([2, 3, 4, 6])):
+        if content and rng.random() < 0.5:
+            lits = bytes(rng.randrange(256) for _ in range(rng.choice([0, 1, 8, 31])))
+            ll = rng.randint(0, len(lits))
+            pos = len(content) + ll
+            if pos == 0:
+                continue
+            maxd = min(pos, window)
+            off = rng.choice([maxd, max(1, maxd - rng.randrange(0, 9)), rng.randint(1, maxd), rng.randint(max(1, maxd // 2), maxd)])
+            ml = rng.choice([4, 5, 8, 20, 100, 130])
+            x = bytearray(content + lits[:ll])
+            for _ in range(ml):
+                x.append(x[-off])
+            x += lits[ll:]
+            blocks.append(("cblk", v05_cblock(lits, ll, ml, off)))
+            content = x
+        else:
+            n = rng.choice([1, 100, 1000, 1000, 5000, 131072, 131072])
+            b = (bytes(rng.randrange(256) for _ in range(min(n, 64))) * (n // 64 + 1))[:n]
+            blocks.append(("raw", b))
+            content += b
+    return blocks, bytes(content)
 
 
 def legacy_v06(rng, blocks):
@@ -91,6 +139,53 @@ def legacy_v07(rng, blocks, content):
     return bytes(out)
 
 
+def v07_cblock(lits, ll, ml, dist):
+    """a v0.7 COMPRESSED block written by hand: raw literals (<= 31 bytes), one sequence, the three tables in RLE mode"""
+    assert len(lits) < 32 and ll <= len(lits) and ll <= 15 and 3 <= ml <= 34 and dist >= 1
+    c = (dist + 3).bit_length() - 1
+    bw = E.BitW()
+    bw.add(dist - ((1 << c) - 3), c)
+    return bytes([0x80 | len(lits)]) + lits + bytes([1, 0x54, ll, c, ml - 3]) + bw.close()
+
+
+def v07_with_matches(rng, wl):
+    """-> (frame, content): a v0.7 frame several times longer than the ZBUFFv07 ring (window + block + 16): raw blocks and hand-made
+    compressed blocks whose match sits at / near the maximum distance"""
+    window = 1 << wl
+    bmax = min(window, 131072)
+    blocks, content = [], bytearray()
+    total = rng.choice([window, 3 * window, 6 * window + 77])
+    while len(content) < total:
+        if content and rng.random() < 0.6:
+            lits = bytes(rng.randrange(256) for _ in range(rng.choice([0, 1, 8, 15, 31])))
+            ll = rng.randint(0, min(15, len(lits)))
+            maxd = min(len(content) + ll, window)
+            if maxd < 1:
+                continue
+            dist = rng.choice([maxd, maxd, max(1, maxd - rng.randrange(0, 9)), rng.randint(1, maxd)])
+            ml = rng.choice([3, 4, 8, 20, 34])
+            x = bytearray(content + lits[:ll])
+            for _ in range(ml):
+                x.append(x[-dist])
+            x += lits[ll:]
+            blocks.append(("cblk", v07_cblock(lits, ll, ml, dist)))
+            content = x
+        else:
+            n = rng.choice([1, 7, 100, bmax // 2, bmax - 1, bmax])
+            b = (bytes(rng.randrange(256) for _ in range(min(n, 64))) * (n // 64 + 1))[:n]
+            blocks.append(("raw", b))
+            content += b
+    ck = rng.random() < .5
+    out = bytearray(struct.pack("<I", 0xFD2FB527))
+    out.append(int(ck) << 2)
+    out.append((wl - 10) << 3)
+    for k, b in blocks:
+        out += _lblk(0 if k == "cblk" else 1, b)
+    h = (st.xxh64(bytes(content)) >> 11) & ((1 << 22) - 1) if ck else 0
+    out += bytes([0xC0 | (h >> 16), (h >> 8) & 255, h & 255])
+    return bytes(out), bytes(content)
+
+
 def _lblocks(rng, maxb, v07):
     bl = []
     for _ in range(rng.choice([0, 1, 1, 2, 3, 5, 9])):
@@ -118,10 +213,30 @@ def run_legacy_handmade(ctx, rng, n):
     for seg in ("La:r", "L5:r", "L6:1"):
         cases.append(dict(frames=[(7, rle_min, b"A" * 10, {"rle"})], seg=seg, so=False, desc="corpus: v0.7 RLE block"))
         cases.append(dict(frames=[(7, emp_min, b"abc", {"empty"})], seg=seg, so=False, desc="corpus: v0.7 empty raw block"))
+    # finding 5: the v0.5 streaming ring of exactly 2^windowLog bytes. A: three small blocks, the third reaches the first (refused);
+    # B: 128 KiB, 1000 bytes, 128 KiB, then a match on the first byte of the 1000 (wrong bytes, success)
+    r5 = __import__("random").Random(5)
+    a1, a2 = bytes(r5.randrange(256) for _ in range(1000)), bytes(r5.randrange(256) for _ in range(1000))
+    ha = a1 + a2 + b"ABCDE"
+    fa = legacy_v05(None, [("raw", a1), ("raw", a2), ("cblk", v05_cblock(b"ABCDEFGH", 5, 20, 1500))], 17)
+    xa = ha + ha[len(ha) - 1500:len(ha) - 1480] + b"FGH"
+    b1, b2, b3 = (bytes(r5.randrange(256) for _ in range(n)) for n in (131072, 1000, 131072))
+    hb = b1 + b2 + b3 + b"ABCDE"
+    ob = 5 + 131072 + 1000
+    fb = legacy_v05(None, [("raw", b1), ("raw", b2), ("raw", b3), ("cblk", v05_cblock(b"ABCDEFGH", 5, 20, ob))], 18)
+    xb = hb + hb[len(hb) - ob:len(hb) - ob + 20] + b"FGH"
+    for seg in ("La:r", "Lh:r", "L1000:1000"):
+        cases.append(dict(frames=[(5, fa, xa, {"cblk"})], seg=seg, so=False, desc="corpus: v0.5 small blocks, match over the previous block"))
+        cases.append(dict(frames=[(5, fb, xb, {"cblk"})], seg=seg, so=False, desc="corpus: v0.5 match on history the ring restart overwrote"))
     for _ in range(n):
         frames = []
         for _ in range(rng.choice([1, 1, 2, 3])):
             v = rng.choice([5, 6, 7, 7, 7, 1, 0])
+            if v == 5 and rng.random() < 0.5:
+                wl = rng.choice([17, 17, 18, 19])
+                bl, x5 = v05_with_matches(rng, wl)
+                frames.append((5, legacy_v05(rng, bl, wl), x5, {"cblk"} if any(k == "cblk" for k, _ in bl) else set()))
+                continue
             if v == 5:
                 wl = rng.choice([11, 12, 17, 18])
                 bl = _lblocks(rng, min(1 << wl, 131072), False)
@@ -129,6 +244,10 @@ def run_legacy_handmade(ctx, rng, n):
             elif v == 6:
                 bl = _lblocks(rng, rng.choice([4096, 4096, 131072]), False)
                 f = legacy_v06(rng, bl)
+            elif v == 7 and rng.random() < 0.3:
+                f7, x7 = v07_with_matches(rng, rng.choice([10, 10, 11, 12]))
+                frames.append((7, f7, x7, {"cblk7"}))
+                continue
             elif v == 7:
                 bl = _lblocks(rng, rng.choice([1024, 1024, 4096, 131072]), True)
                 f = legacy_v07(rng, bl, b"".join(b for _, b in bl))
@@ -183,6 +302,8 @@ def run_legacy_handmade(ctx, rng, n):
                 key = KEY_RLE
             if key is None and "empty" in feats and ("not a flushed frame end" in what or "prefix_unknown" in what):
                 key = KEY_EMPTY
+            if key is None and "cblk" in feats and ("corruption_detected" in what or "not a prefix" in what or "differs" in what):
+                key = KEY_V05RING
         if what:
             nv += 1
             ctx.violation(dict(kind="reuse-history", ops=c["ops"], stream_hex=c["stream"].hex()[:60000], dict1_hex="", dict2_hex="", desc=c["desc"],
@@ -414,6 +535,9 @@ def corpus_id_histories(pool):
     hs.append(([("set", "mdd=1"), ("set", "rd1"), ("set", "rp2"), ("frame", "z1", z1, "Lh:r"), ("set", "xs"), ("frame", "zp", zp, "L1:r"), ("frame", "z1", z1, "La:r")],
                "prefix pending hides the referenced DDict, refused, reset, prefix frame, then nothing current"))
     hs.append(([("set", "ld2"), ("frame", "z1", z1, "L7:100"), ("set", "xs"), ("frame", "z2", z2, "La:r")], "loaded dictionary, refused frame, reset, its own frame"))
+    # b87b37f : a ZSTD_decompressDCtx call that fails leaves the prefix pending
+    hs.append(([("set", "rp2"), ("oneshot", [("z1", z1)]), ("oneshot", [("zp", zp)]), ("oneshot", [("z0", z0)])], "prefix, refused single call, the call that needs it"))
+    hs.append(([("set", "rp2"), ("oneshot", [("z1", z1)]), ("frame", "zp", zp, "L1:r"), ("frame", "z0", z0, "La:r")], "prefix, refused single call, streamed prefix frame"))
     return hs
 
 
@@ -479,11 +603,9 @@ def run_dict_ids(ctx, rng, cd, tie, n):
                 stream += f["frame"]
                 plan.append(("stream", f["content"], len(f["frame"]), ok, k))
                 if not ok:
-                    # after an error only a resetting call is legal; the state the model predicts is that of a frame start WITHOUT the
-                    # single-pass shortcut (with it a pending prefix is fetched before the frame is refused)
+                    # after an error only a resetting call is legal (the single-pass shortcut leaves the same state since 2f289ec)
                     nxt_ev = ev[ei + 1] if ei + 1 < len(ev) else None
-                    if not (nxt_ev and nxt_ev[0] == "set" and nxt_ev[1] in ("xs", "rs", "in", "id1", "id2", "xa", "n") and seg in ("Lh:r", "L1:r", "L7:100", "La:1")
-                            and len(f["frame"]) > 7):
+                    if not (nxt_ev and nxt_ev[0] == "set" and nxt_ev[1] in ("xs", "rs", "in", "id1", "id2", "xa", "n")):
                         stop = True
                     else:
                         plan.append(("q", q))     # dctx->ddict / dctx->dictUses right after the refusal (b15fdb6: a pending prefix stays pending)
@@ -504,10 +626,7 @@ def run_dict_ids(ctx, rng, cd, tie, n):
                 ops += ["j%d" % len(stream), "e%d" % (len(stream) + total), "o%d" % total, "q"]
                 stream += b"".join(f["frame"] for _, f in fl)
                 plan.append(("oneshot", b"".join(f["content"] for _, f in fl), total, allok, "+".join(k for k, _ in fl)))
-                if not allok:
-                    stop = True
-                else:
-                    plan.append(("q", q))
+                plan.append(("q", q))         # also after a refused call: it needs no reset, and leaves a pending prefix pending (b87b37f)
         if any(p[0] in ("stream", "oneshot") for p in plan):
             cases.append(dict(id="i%d" % i, ops=";".join(ops), stream=stream, plan=plan, desc=desc, mops=mlines[i].split(" ", 3)[3]))
     out, errs = st.run_lines(hexe, ["H %s %s %s %s %s" % (c["id"], codec.hx(d1), codec.hx(d2), codec.hx(c["stream"]) if c["stream"] else "-", c["ops"]) for c in cases])
@@ -587,9 +706,32 @@ def run_dict_ids(ctx, rng, cd, tie, n):
         ctx.count(("DID", tuple((p[0], p[3], p[4]) if p[0] in ("stream", "oneshot") else p[0] for p in c["plan"] if p[0] != "q")), nontrivial=True)
         if bad:
             nv += 1
-            ctx.violation(dict(kind="reuse-history", ops=c["ops"], model_ops=c["mops"], stream_hex=c["stream"].hex()[:60000], dict1_hex=d1.hex(), dict2_hex=d2.hex(),
-                               desc=c["desc"]),
+            ctx.violation(dict(kind="reuse-history", family="dict-id", ops=c["ops"], model_ops=c["mops"], ids="%d:%d" % (id1, id2),
+                               stream_hex=c["stream"].hex()[:60000], dict1_hex=d1.hex(), dict2_hex=d2.hex(), desc=c["desc"]),
                           what="dictionary-ID history (%s; ops %s): %s%s" % (c["desc"], c["ops"][:160], bad, " [%s]" % key if key else ""), no_input=not concrete, key=key)
         else:
             ctx.cov["traces_validated_against_impl"] += 1
     return len(cases), nv
+
+
+def replay_id_history(ctx, rep, tie):
+    """re-execute a recorded dictionary-ID history: the implementation's q records and refusals against the model's, in order"""
+    hexe = core.build_harness("c02_hist", ["c02_hist.c"], variant="o1", extra_flags=["-w"])
+    out, errs = st.run_lines(hexe, ["H r0 %s %s %s %s" % (rep.get("dict1_hex") or "-", rep.get("dict2_hex") or "-", rep.get("stream_hex") or "-", rep["ops"])])
+    mout, merrs = tie.model(["DI r0 %s %s" % (rep["ids"], rep["model_ops"])])
+    r, m = out.get("r0", ""), mout.get("r0", "")
+    core.log("replay of a dictionary-ID history: implementation %s ; model %s" % (r[-500:], m[-300:]))
+    if errs or merrs or not r.startswith("OK ") or not m.startswith("OK "):
+        ctx.violation(rep, what="replayed dictionary-ID history could not be executed: %s %s" % (errs[:1], merrs[:1]))
+        return
+    recs = [x for x in r.split(" ")[2].split(";") if x]
+    iq = [x for x in recs if x.startswith("q=")]
+    irej = sum(1 for x in recs if "EDictionary_mismatch" in x)
+    ierr = [x for x in recs if (x.startswith("s:") or x.startswith("o:")) and x.split(":")[-1].startswith("E") and "Dictionary_mismatch" not in x]
+    items = [x for x in m.split(" ")[1].split(";") if x]
+    mq = [x.replace("q=3,", "q=2,") for x in items if x.startswith("q=")]
+    mrej = sum(1 for x in items if x.startswith("f=") and x.endswith(":0"))
+    k = next((i for i, (a, b) in enumerate(zip(iq, mq)) if a != b), None)
+    if ierr or k is not None or (irej > 0) != (mrej > 0):
+        ctx.violation(rep, what="replayed dictionary-ID history: implementation and DictIdModel differ (first q difference %s: %s vs %s; refusals %d vs %d; other errors %s)"
+                               % (k, iq[k] if k is not None else None, mq[k] if k is not None else None, irej, mrej, ierr[:1]))
